@@ -547,7 +547,7 @@ impl private::StoreCallbacks<Annotation> for AnnotationStore {
                 .remove(set_handle, data_handle, handle);
         }
         for (set_handle, data_handle) in data_targets {
-            self.dataset_data_annotation_map
+            self.data_annotation_metamap
                 .remove(set_handle, data_handle, handle);
         }
         for (set_handle, key_handle) in key_targets {
